@@ -42,6 +42,9 @@ type SeqCase struct {
 	Handlers []H    `json:"handlers"`
 	Steps    []Step `json:"steps"`
 	Ambient  int    `json:"ambient,omitempty"`
+	// SharedOpts: one Once()/Async()/Sequential() value reused for every
+	// subscription of the case instead of a fresh one per Subscribe call.
+	SharedOpts bool `json:"shared_opts,omitempty"`
 }
 
 func accepts(f string, id int) bool {
@@ -76,16 +79,16 @@ func (c *calls) hit(h, id int) {
 	c.mu.Unlock()
 }
 
-func subscribe(bus *eventbus.EventBus, h H, idx int, c *calls) error {
+func subscribe(bus *eventbus.EventBus, src *busmodel.OptSource, h H, idx int, c *calls) error {
 	var opts []eventbus.SubscribeOption
 	if h.Once {
-		opts = append(opts, eventbus.Once())
+		opts = append(opts, src.Once())
 	}
 	if h.Async {
-		opts = append(opts, eventbus.Async())
+		opts = append(opts, src.Async())
 	}
 	if h.Seq {
-		opts = append(opts, eventbus.Sequential())
+		opts = append(opts, src.Sequential())
 	}
 	if h.T == 0 {
 		opts = append(opts, filterOpt(h.Filter, func(e EvA) int { return e.ID })...)
@@ -153,6 +156,7 @@ func count(bus *eventbus.EventBus, t int) (int, bool) {
 func RunSeq(c *SeqCase) *vkit.Outcome {
 	o := &vkit.Outcome{}
 	bus := eventbus.New(busmodel.Ambient(c.Ambient)...)
+	src := busmodel.NewOptSource(c.SharedOpts)
 	cl := &calls{n: make([]int, len(c.Handlers)), ev: make([][]int, len(c.Handlers))}
 	type mreg struct {
 		h     int
@@ -165,7 +169,7 @@ func RunSeq(c *SeqCase) *vkit.Outcome {
 		switch s.K {
 		case "sub":
 			h := c.Handlers[s.H]
-			if err := subscribe(bus, h, s.H, cl); err != nil {
+			if err := subscribe(bus, src, h, s.H, cl); err != nil {
 				o.Failf("", "step %d: subscribe: %v", si, err)
 				return o
 			}
@@ -247,6 +251,7 @@ type ConcCase struct {
 	Rounds     int     `json:"rounds"`
 	Yield      []int   `json:"yield,omitempty"` // per publisher: Gosched calls before each publish
 	Ambient    int     `json:"ambient,omitempty"`
+	SharedOpts bool    `json:"shared_opts,omitempty"`
 }
 
 func RunConc(c *ConcCase) *vkit.Outcome {
@@ -277,8 +282,9 @@ func RunConc(c *ConcCase) *vkit.Outcome {
 	for round := 0; round < c.Rounds; round++ {
 		bus := eventbus.New(busmodel.Ambient(c.Ambient)...)
 		cl := &calls{n: make([]int, len(c.Handlers)), ev: make([][]int, len(c.Handlers))}
+		src := busmodel.NewOptSource(c.SharedOpts)
 		for hi, h := range c.Handlers {
-			if err := subscribe(bus, h, hi, cl); err != nil {
+			if err := subscribe(bus, src, h, hi, cl); err != nil {
 				o.Failf("", "subscribe: %v", err)
 				return o
 			}
